@@ -27,6 +27,8 @@ type ckptInput struct {
 	Runs   int   `json:"runs"`
 	Batch  int   `json:"batch"`
 	Seed   int64 `json:"seed"`
+	Restart bool `json:"restart,omitempty"` // on disk: between runs the bucket is closed, the process clock state is lost, the
+	// wall clock has gone back, and the bucket is opened again (CreateOrOpen or ReOpenExisting)
 }
 
 var ckptSerial int64
@@ -49,8 +51,10 @@ func execCkpt(in ckptInput, scratch string) (Case, error) {
 	if err != nil {
 		return c, err
 	}
-	defer b.CloseAndDelete(ctxBg)
+	defer func() { _ = b.CloseAndDelete(ctxBg) }()
+	defer rosmar.VerifSetClock(nil)
 	col := b.DefaultDataStore().(*rosmar.Collection)
+	bname := b.GetName()
 	r := rand.New(rand.NewSource(in.Seed))
 	var runTerms []any
 	doc := 0
@@ -121,6 +125,22 @@ func execCkpt(in ckptInput, scratch string) (Case, error) {
 		mu.Lock()
 		runTerms = append(runTerms, P(L(got...), N(cp.LastSeq)))
 		mu.Unlock()
+		if in.Restart && in.OnDisk && !last && r.Intn(2) == 0 {
+			// what a new process on a host whose clock is behind would do
+			b.Close(ctxBg)
+			rosmar.VerifResetHLC(0)
+			rosmar.VerifSetClock(func() uint64 { return 1 << 30 })
+			mode := rosmar.OpenMode(rosmar.ReOpenExisting)
+			if r.Intn(2) == 0 {
+				mode = rosmar.CreateOrOpen
+			}
+			nb, err := rosmar.OpenBucket(url, bname, mode)
+			if err != nil {
+				return c, fmt.Errorf("reopen: %w", err)
+			}
+			b = nb
+			col = b.DefaultDataStore().(*rosmar.Collection)
+		}
 	}
 	var finals []any
 	for k, v := range finalCas {
@@ -145,7 +165,7 @@ func runCkpt(cfg runCfg, emit func(Case)) error {
 	} else {
 		r := rand.New(rand.NewSource(cfg.seed))
 		for i := 0; i < cfg.n; i++ {
-			inputs = append(inputs, ckptInput{OnDisk: r.Intn(2) == 0, Runs: 4 + r.Intn(8), Batch: 5 + r.Intn(30), Seed: r.Int63n(1 << 40)})
+			inputs = append(inputs, ckptInput{OnDisk: r.Intn(2) == 0, Runs: 4 + r.Intn(8), Batch: 5 + r.Intn(30), Seed: r.Int63n(1 << 40), Restart: r.Intn(2) == 0})
 		}
 	}
 	for _, in := range inputs {
